@@ -20,12 +20,18 @@ TECHNIQUE = ("Coq: two instances of the shared session model coq/Sess (initiator
 LEVEL_TEXT = ("c21_refuted: one drop suffices -- an application message lost in flight makes the sender's next Logon carry a "
               "number above the one expected (C20's failing history between two fix8 endpoints): InvalidMsgSequence in "
               "logon_received, Logout, the sessions never re-establish; c21_logon_lost_refuted: the same for a lost Logon.  "
-              "c21_nofault_partial: for every schedule of sends and deliveries without drops or restarts, in every "
-              "interleaving, every application message is delivered exactly once, in send order, never PossDup, and both "
-              "sessions stay in state continuous with matching numbers.")
+              "c21_nofault_partial (all schedules, induction): from a synced pair of sessions, for every schedule of sends and "
+              "deliveries without drops or restarts, in every interleaving, whose messages the codec reads back (valid_run, "
+              "executable per message), each side's application is handed exactly the other side's messages: once each, in send "
+              "order, never PossDup, and the pair is synced again; c21_nofault_twoparty: the same statement about the events of "
+              "TwoParty.run_sops (simulation between the two Sess.Wire worlds and the session pair); c21_nofault_nonvacuous: the "
+              "hypotheses hold for the model after the Logon exchange and a concrete schedule; c21_examples: a fault-free "
+              "schedule and a drop on a quiet connection satisfy c21_ok and c21_exact.")
 LEVEL_NOTE = ("Trusted: Coq kernel, extraction, the hand transcription coq/Sess of session.cpp / persist.cpp / filepersist.cpp "
               "(checked by the correspondence run on every case: the model's trace of BOTH sessions must equal the real one "
-              "byte for byte), the harness (h_c21.cpp on sess_harness.hpp, vsock, vclock).")
+              "byte for byte), the harness (h_c21.cpp on sess_harness.hpp, vsock, vclock).  That restarts / drops on a quiet "
+              "connection are harmless is observed on every generated schedule of that kind (class 0 => c21_ok) and shown for "
+              "one example, not proved in general.")
 DESIGN_REF = "DESIGN.md section 4, C21; finding F26"
 PROPS_FILE = "Props/Properties_C21.v"
 COQ_TARGETS = ["Props/Properties_C21.vo", "Extract/Extract_C21.vo"]
@@ -46,7 +52,7 @@ RULE = ("schedules over SI/SA (application send on the initiator/acceptor), DA/D
         "restart); every schedule ends with D.  quick: all schedules up to length 2, all fault-free ones over {SI,SA,DA,DI} up "
         "to length 4 after the logon exchange, and a random sample of longer ones (up to 12 operations, mostly fault-free "
         "prefixes with one or two faults).  thorough: ALL schedules up to length 4 over the 8 operations, all schedules up to "
-        "length 6 over {SA, SI, D, DROP} after the logon exchange, random beyond.  non-trivial = at least one application "
+        "length 5 over {SA, SI, D, DROP} after the logon exchange, random beyond.  non-trivial = at least one application "
         "message was delivered on either side; distinct = distinct schedule lines")
 
 
@@ -165,16 +171,16 @@ def gen_cases(rng, tier):
         for ops in itertools.product(CLEAN, repeat=n):
             add(["D"] + list(ops), "exhaustive-faultfree")
     if thorough:
-        for n in range(1, 7):
+        for n in range(1, 6):
             for ops in itertools.product(["SA", "SI", "D", "DROP"], repeat=n):
                 add(["D"] + list(ops), "exhaustive-drop")
-    for _ in range(3000 if thorough else 120):
+    for _ in range(1000 if thorough else 120):
         # fault-free, any interleaving
         n = rng.randint(3, 12)
         ops = ["D"] if rng.random() < 0.9 else []
         ops += [rng.choice(["SI", "SA", "SI", "SA", "DA", "DI", "D"]) for _ in range(n)]
         add(ops, "random-faultfree", rng)
-    for _ in range(3000 if thorough else 120):
+    for _ in range(1000 if thorough else 120):
         # one or two faults somewhere
         n = rng.randint(3, 10)
         ops = ["D"] + [rng.choice(["SI", "SA", "SI", "SA", "DA", "DI", "D"]) for _ in range(n)]
